@@ -110,7 +110,7 @@ pub fn compare_animator(mut mac: Anim, desc: &AnimDesc, ops: &[AOp]) -> Result<s
                     Step::Zero => 0.0,
                     Step::Grid(n) => (n as f64 * GRID_S) as f32,
                     Step::Arb(x) => x.max(0.0),
-                    Step::ToEnd { .. } | Step::ToEndCycles { .. } => GRID_S as f32 * 64.0,
+                    Step::ToEnd { .. } | Step::ToEndCycles { .. } | Step::ToEndUlps { .. } => GRID_S as f32 * 64.0,
                 };
                 mac.advance(dt);
                 reference.advance(dt);
